@@ -25,8 +25,12 @@ EXPLANATION = (
     'are written as [height/2, width/2] = [major, minor] semi-axes and read back doubled and swapped, sizes and angles are '
     'written in the labelled unit (degrees) in sky and image coordinates alike; (R4) "-" <=> include False and "ann " <=> type '
     'ann on both sides; (R5) per-region meta starts as a deep copy of the global dict and inline keys override it; (R6) a length '
-    'without unit raises; (R7) the serialiser does not mutate the regions. Not decided: numeric formatting per fmt/radunit, the '
-    'line regexes beyond bracket structure, sexagesimal lexing, label/text quoting.')
+    'without unit raises; (R7) the serialiser does not mutate the regions; (R8) CASA frame keywords, read-side box notations, metadata key '
+    'agreement; (R9) value level for label and text: the metadata text the writer appends for a labelled region and the line it '
+    'writes for a text region (templates from the source, representative multi-word value) are lexed by the reader\'s own '
+    'regex_line / regex_meta / regex_length (stdlib re on the source patterns) back to one region, no stray parameters, the same '
+    'label/text, and the label is bound to the region meta; two probes (label with a comma, text with "=") decide the quoting '
+    'discipline. Not decided: numeric formatting per fmt/radunit, sexagesimal lexing.')
 TRUSTED = ['the reader\'s regexes, applied to the constant line template, return the bracketed pairs / trailing lengths in order '
            '(stdlib re on constants from the source)', 'Quantity.to(unit).value', 'frame_transform_graph.get_names() maps astropy '
            'frame names to themselves']
@@ -480,6 +484,133 @@ def r8(ctx):
         ctx.ok('_to_crtf_meta', 'every key the reader accepts is in the writer whitelist')
 
 
+# ---------------------------------------------------------------- label / text values
+def _render(t, ph):
+    from .c09 import render
+    return render(t, ph)
+
+
+def _line_regexes(model):
+    rmod = model.modules[READ]
+    out = {}
+    for name in ('regex_line', 'regex_region', 'regex_meta', 'regex_length'):
+        if name not in rmod.assigns:
+            raise AnalysisError('C11', READ, f'{name} not found')
+        out[name] = re.compile(rmod.assigns[name][0].value.args[0].value)
+    return out
+
+
+def _writer_meta_string(ctx, label_value):
+    """the `k=v, ...` metadata text the writer appends for a circle with that label (rendered)."""
+    m = ctx.model
+    ser, ev, out = eval_writer(m, m.cls('CircleSkyRegion'), 'fk5', meta={'label': Obj('str', {}, 'L')})
+    joins = []
+    for pc, v in out.returns:
+        for x in walk_terms(v):
+            if isinstance(x, App) and x.name == 'apply' and isinstance(x.args[0], App) and x.args[0].name == 'attr:join' \
+                    and isinstance(x.args[1], Tup) and any('label' in show(i, 200) for i in x.args[1].items):
+                joins.append(x)
+    if not joins:
+        return None
+    return _render(joins[0], {'L': label_value})
+
+
+def _lex_meta(rx, meta_str):
+    pairs = []
+    for par in rx['regex_meta'].findall(meta_str + ','):
+        pairs.append((par[0], par[1]) if par[0] != '' else (par[2], par[3]))
+    return pairs
+
+
+def r9(ctx):
+    m = ctx.model
+    rx = _line_regexes(m)
+    f, templates = _template_tokens(m)
+    tok, text_tpl = templates.get('text', (None, None))
+    ctx.need(text_tpl is not None and '{text}' in text_tpl, '_ShapeList.to_crtf', 'text template not found')
+    circ_tpl = templates['circle'][1]
+    num = '1.500000'
+
+    def line_of(tpl, **kw):
+        txt = re.sub(r'\{0\}', '', tpl)
+        txt = re.sub(r'\{(\d+)(?::[^}]*)?\}', num, txt).replace('FMT', '').replace('RAD', 'deg')
+        for k, v in kw.items():
+            txt = txt.replace('{' + k + '}', v)
+        return txt
+
+    # (a) label of a representative multi-word value
+    L = 'Aa Bb'
+    meta_str = _writer_meta_string(ctx, L)
+    if meta_str is None:
+        ctx.bad('label', 'writer-drops', 'the line written for a region whose meta has a label carries no label=...',
+                f.loc())
+        meta_str = ''
+    line = line_of(circ_tpl) + ', ' + meta_str
+    mm = rx['regex_line'].search(line)
+    pairs = _lex_meta(rx, mm.group('parameters')) if mm and mm.group('parameters') else []
+    if not meta_str:
+        pass
+    elif pairs != [('label', L)] and [(k, v.strip()) for k, v in pairs] != [('label', L)]:
+        ctx.bad('label', 'lexing', f'the writer emits `{line}`; the reader lexes the metadata as {pairs}', 'regions/io/crtf/read.py')
+    else:
+        pr, sh, reg, _ = eval_reader(m, circ_tpl, 'circle', meta_pairs=[(k, v) for k, v in pairs])
+        md = reg.fields.get('meta') if reg is not None else None
+        got = None
+        if isinstance(md, App) and md.args and isinstance(md.args[0], DictV):
+            md = md.args[0]
+        if isinstance(md, DictV) and 'label' in md.keys():
+            got = md.get('label')
+        if isinstance(got, Const) and got.v == L:
+            ctx.ok('label', f'`{meta_str}` -> lexed and bound as meta label {L!r}')
+        else:
+            ctx.bad('label', 'binding', f'the parsed label reaches the region as {show(got, 80)} (meta {show(md, 200)})',
+                    'regions/io/crtf/read.py')
+    # (b) text of a text region: the whole line is the region, the quoted text is the last bracket entry
+    # the reader statement that takes the text out of the last bracket entry
+    rp = m.cls('_CRTFRegionParser')
+    take = None
+    for fi in rp.methods.values():
+        for st in stmts_of(fi.node):
+            if isinstance(st, ast.Assign) and norm(st.targets[0]).replace('"', "'") == "self.meta['text']":
+                take = (fi, st)
+    ctx.need(take is not None, '_CRTFRegionParser', "statement storing meta['text'] not found")
+
+    def unquote(val):
+        from ..vg import Frame
+        fi, st = take
+        names = {n.id for n in ast.walk(st.value) if isinstance(n, ast.Name)}
+        ctx.need(len(names) == 1, fi.qualname, 'text extraction depends on more than the lexed entry')
+        r = Evaluator(m).expr(st.value, {names.pop(): Const(val)}, Frame(fi, None, 0))
+        return r.v if isinstance(r, Const) else None
+
+    for name, txt in (('text', 'Aa Bb'), ('text quoting', 'x=1')):
+        line = line_of(text_tpl, text=txt)
+        mm = rx['regex_line'].search(line)
+        region_part = mm.group('region') if mm else None
+        params = (mm.group('parameters') or '') if mm else None
+        lens = rx['regex_length'].findall(region_part or '')
+        good = mm is not None and region_part == line and params == '' and lens and unquote(lens[-1]) == txt
+        if good:
+            ctx.ok(name, f'`{line}`: one region, no stray parameters, text {txt!r}')
+        else:
+            ctx.bad(name, 'equals-in-text' if name != 'text' else 'lexing',
+                    f'a text region with text {txt!r} is written `{line}`; the reader\'s line regex takes `{region_part}` as the '
+                    f'region and `{params}` as its parameters (trailing lengths {lens}): the file does not parse back to that text',
+                    'regions/io/crtf/read.py')
+    # (c) label values containing the separators of the metadata grammar
+    Lc = 'a,b'
+    meta_str = _writer_meta_string(ctx, Lc) or ''
+    pairs = _lex_meta(rx, meta_str)
+    if not meta_str:
+        ctx.ok('label quoting', 'no label written (reported above)')
+    elif [(k, v.strip()) for k, v in pairs] == [('label', Lc)]:
+        ctx.ok('label quoting', 'a quoted label containing a comma is lexed whole')
+    else:
+        ctx.bad('label quoting', 'comma-in-label',
+                f'label {Lc!r} is written `{meta_str}` and lexed as {pairs}: the metadata regex ends a quoted value at the first '
+                'comma or quote character', 'regions/io/crtf/read.py')
+
+
 RULES = [
     RuleDef('R1', 'frame tables mutually inverse', r1, 8),
     RuleDef('R2', 'shape vocabulary: class -> type -> token -> class; text written', r2, 17),
@@ -489,4 +620,5 @@ RULES = [
     RuleDef('R6', 'lengths need units', r6, 1),
     RuleDef('R7', 'serialisers do not mutate the regions', r7, 2),
     RuleDef('R8', 'CASA frame keywords; read-side box notations; metadata key agreement', r8, 5),
+    RuleDef('R9', 'label and text values: written quoting is what the line/metadata regexes lex; bound to the region', r9, 4),
 ]
